@@ -197,7 +197,17 @@ func optionIniName(option *Option) string {
 		return name
 	}
 
-	return option.field.Name
+	if len(option.field.Name) != 0 {
+		return option.field.Name
+	}
+
+	// An option added with AddOption has no struct field: it is written under
+	// a name the reader knows it by
+	if len(option.LongName) != 0 {
+		return option.LongNameWithNamespace()
+	}
+
+	return string(option.ShortName)
 }
 
 func writeGroupIni(cmd *Command, group *Group, namespace string, writer io.Writer, options IniOptions) {
